@@ -154,6 +154,12 @@ func (ei *resourceInformer) createSharedInformer() error {
 
 // Snapshot returns all cached objects for this informer
 func (ei *resourceInformer) getCachedObjects() []kemtypes.ObjectAndFilterResult {
+	// Copy the cache and reset the buffer under eventBufLock: an event that is cached
+	// and buffered between the copy and the reset would be neither in the returned
+	// objects nor replayed after Synchronization.
+	ei.eventBufLock.Lock()
+	defer ei.eventBufLock.Unlock()
+
 	ei.cacheLock.RLock()
 	res := make([]kemtypes.ObjectAndFilterResult, 0)
 	for _, obj := range ei.cachedObjects {
@@ -163,11 +169,9 @@ func (ei *resourceInformer) getCachedObjects() []kemtypes.ObjectAndFilterResult 
 	verifsched.Point("informer.snapshot.copied", ei.Monitor.Metadata.DebugName)
 
 	// Reset eventBuf if needed.
-	ei.eventBufLock.Lock()
 	if !ei.eventCbEnabled {
 		ei.eventBuf = nil
 	}
-	ei.eventBufLock.Unlock()
 	return res
 }
 
